@@ -193,6 +193,14 @@ func runLattice(c VSCase, a *run.Acc) {
 		return
 	}
 	exact := len(exp.Vecs["v"].Vecs) < 1000
+	if !exact {
+		for f := range exp.Vecs {
+			if m := everyVectorPresent(mem, exp, f); m != "" {
+				fail("search", fmt.Sprintf("field %q: %s", f, m))
+				return
+			}
+		}
+	}
 	excepts := [][]uint32{nil, {0, 1, 2, 41}}
 	var every3 []uint32
 	for d := 0; d < n; d += 3 {
